@@ -1,7 +1,8 @@
 (* Executable entry of the execution model: opcode :: wire tree. *)
-From GV Require Import Base.Prelude Exec.Value Exec.Schema Exec.Spec Exec.Wire.
+From GV Require Import Base.Prelude Exec.Value Exec.Schema Exec.Spec Exec.Typing Exec.Wire.
 
 Definition bad : list N := [999999].
+Definition b2n (b : bool) : N := if b then 1 else 0.
 
 Definition run (inp : list N) : list N :=
   match inp with
@@ -9,10 +10,29 @@ Definition run (inp : list N) : list N :=
     match dec_tree 200 payload with
     | None => bad
     | Some (w, _) =>
+      let s := to_schema (kid 0 w) in
+      let d := to_doc (kid 1 w) in
+      let vars := to_args (kid 2 w) in
       if op =? 1 then
         (* execute: kids = schema, document, variables, data *)
-        enc_tree (of_response (execute (to_schema (kid 0 w)) (to_doc (kid 1 w))
-                                       (to_args (kid 2 w)) (to_data (kid 3 w))))
+        enc_tree (of_response (execute s d vars (to_data (kid 3 w))))
+      else if op =? 2 then
+        (* static and data checks: well_typed, well_typed_strict, schema_ok,
+           variables coerce, conforming data, no null in a nullable variable *)
+        let root := to_data (kid 3 w) in
+        let cvo := coerce_variable_values s (d_vars d) vars in
+        [b2n (well_typed s d); b2n (well_typed_strict s d); b2n (schema_ok s);
+         b2n (match cvo with Some _ => true | None => false end);
+         b2n (match root_type s (d_kind d) with Some rt => conforms_root s rt root | None => false end);
+         b2n (match cvo with Some cv => no_null_nullable_vars (d_vars d) cv | None => false end)]
+      else if op =? 4 then
+        (* shape of a given response data (kid 3 = json) *)
+        match coerce_variable_values s (d_vars d) vars, root_type s (d_kind d) with
+        | Some cv, Some rt =>
+            let j := to_json (kid 3 w) in
+            [b2n (shape_ok s (d_frags d) cv (default_fuel s d DNull + 40 * (1 + sels_depth (d_sels d))) (TNamed rt) (d_sels d) j)]
+        | _, _ => [2]
+        end
       else if op =? 0 then enc_tree w      (* echo *)
       else bad
     end
